@@ -278,6 +278,29 @@ func Run(prop, tier string, seed int64, repoDir, verifDir string, verbose bool) 
 						o.Replayed, o.ReplayPath = w.Replay(inst, o, filepath.Join(verifDir, "replays", prop))
 					}
 				}
+				// a counterexample under an abstraction that does not reproduce is re-decided with the exact encoding
+				if inst.Exact != nil && r.Err == nil {
+					need := false
+					for _, o := range r.Obs {
+						if o.Verdict == "sat" && o.Kind != "cover" && o.Replayed != "confirmed" {
+							need = true
+						}
+					}
+					if need {
+						ex := *inst.Exact
+						ex.Prop, ex.Params = inst.Prop, inst.Params
+						r2 := w.RunInstance(ex, s)
+						for j := range r2.Obs {
+							o := &r2.Obs[j]
+							if o.Verdict == "sat" && o.Kind != "cover" && o.Kind != "unwind" && o.Model != nil {
+								o.Replayed, o.ReplayPath = w.Replay(ex, o, filepath.Join(verifDir, "replays", prop))
+							}
+							o.Detail = "[exact encoding after an unreproduced abstract counterexample] " + o.Detail
+						}
+						r2.Inst = inst
+						r = r2
+					}
+				}
 				results[i] = r
 				if verbose {
 					mu.Lock()
